@@ -30,8 +30,8 @@ T_BIN = ['add', 'sub', 'mul']
 T_MIX = ['matvec', 'rmatvec']       # (O,T) -> T
 O_UN = ['negO', 'scalO', 'tO']
 O_BIN = ['addO', 'mulO', 'matmat']
-T_TERM = ['full_lin', 'sum', 'norm', 'norm2', 'dot_c', 'dot_axis', 'bilinear', 'getitem', 'getitem_none', 'apply_mask', 'cat', 'pad', 'kron', 'sum_axes', 'diag', 'mprod_list']
-O_TERM = ['full_lin', 'sum', 'norm', 'matvec_c', 'diag', 'getitem', 'kron', 'pad']
+T_TERM = ['full_lin', 'sum', 'norm', 'norm2', 'dot_c', 'dot_c_r', 'dot_axis', 'bilinear', 'bilinear_y', 'getitem', 'getitem_none', 'apply_mask', 'cat', 'cat_r', 'pad', 'kron', 'kron_r', 'kron_fn', 'kron_fn_r', 'sum_axes', 'diag', 'mprod_list']
+O_TERM = ['full_lin', 'sum', 'norm', 'matvec_c', 'diag', 'getitem', 'kron', 'kron_r', 'pad']
 TRACK = [('x', None), ('x', 0), ('x', 1), ('x', 2), ('y', None), ('A', None), ('A', 1), ('all', None)]
 
 
@@ -249,6 +249,22 @@ def term_tt(term, kind, E, env):
     if term == 'kron':
         r = (E ** (c if kind == 'T' else A0)).full()
         return (r * _G(r.shape, 'kron')).sum()
+    if term == 'kron_r':
+        r = ((c if kind == 'T' else A0) ** E).full()
+        return (r * _G(r.shape, 'kronr')).sum()
+    if term == 'kron_fn':
+        r = torchtt.kron(E, c).full()
+        return (r * _G(r.shape, 'kron')).sum()
+    if term == 'kron_fn_r':
+        r = torchtt.kron(c, E).full()
+        return (r * _G(r.shape, 'kronr')).sum()
+    if term == 'dot_c_r':
+        return torchtt.dot(c, E)
+    if term == 'bilinear_y':
+        return torchtt.bilinear_form(c, A0, E)
+    if term == 'cat_r':
+        r = torchtt.cat((c, E), 1).full()
+        return (r * _G(r.shape, 'cat')).sum()
     if term == 'sum_axes':
         r = E.sum([0, 2]).full()
         return (r * _G(r.shape, 'sa')).sum()
@@ -322,6 +338,23 @@ def term_dense(term, kind, E, env):
         if kind == 'O':
             r = r.permute(list(range(d)) + list(range(2 * d, 3 * d)) + list(range(d, 2 * d)) + list(range(3 * d, 4 * d)))
         return (r * _G(r.shape, 'kron')).sum()
+    if term in ('kron_r', 'kron_fn_r'):
+        other = c if kind == 'T' else A0
+        r = torch.tensordot(other, E, dims=0)
+        if kind == 'O':
+            r = r.permute(list(range(d)) + list(range(2 * d, 3 * d)) + list(range(d, 2 * d)) + list(range(3 * d, 4 * d)))
+        return (r * _G(r.shape, 'kronr')).sum()
+    if term == 'kron_fn':
+        r = torch.tensordot(E, c, dims=0)
+        return (r * _G(r.shape, 'kron')).sum()
+    if term == 'dot_c_r':
+        return (c * E).sum()
+    if term == 'bilinear_y':
+        Ay = torch.tensordot(A0, E, dims=(list(range(d, 2 * d)), list(range(d))))
+        return (c * Ay).sum()
+    if term == 'cat_r':
+        r = torch.cat((c, E), 1)
+        return (r * _G(r.shape, 'cat')).sum()
     if term == 'sum_axes':
         r = E.sum(dim=[0, 2]) if kind == 'T' else E.sum(dim=[0, 2, d, d + 2])
         return (r * _G(r.shape, 'sa')).sum()
@@ -415,7 +448,7 @@ def run_case(c):
         if tuple(a.shape) != tuple(ct[name][k].shape):
             viol.append(V(site + '.grad_shape', '%s core %d' % (name, k)))
             break
-        if float((a - b).abs().max()) > 1e-9 * gs:
+        if float((a - b).abs().max()) > 1e-9 * gs + 1e-12 * (1.0 + abs(float(v_d))):
             viol.append(V(site + '.grad_mismatch', '%s core %d: max diff %.3e (scale %.3e)' % (name, k, float((a - b).abs().max()), gs)))
             break
     # ---- finite difference along one fixed direction
@@ -451,7 +484,7 @@ def run_case(c):
                     tgt = cd[who][tracked[k][1]]
                     b = torch.zeros_like(tgt) if b is None else b
                     a = torch.zeros_like(tgt) if a is None else a
-                    if tuple(a.shape) != tuple(tgt.shape) or float((a - b).abs().max()) > 1e-9 * gs:
+                    if tuple(a.shape) != tuple(tgt.shape) or float((a - b).abs().max()) > 1e-9 * gs + 1e-12 * (1.0 + abs(float(v_d))):
                         viol.append(V(site + '.grad_api_mismatch', 'core %d' % tracked[k][1]))
                         break
     return Outcome(key, nt, 'ok' if not viol else 'viol', transitions=4, compared=3, violations=viol)
